@@ -154,6 +154,11 @@ func nestedDef() *lexer.StatefulDefinition {
 	})
 }
 
+// namedReader has a name of its own, like *os.File.
+type namedReader struct{ *strings.Reader }
+
+func (namedReader) Name() string { return "name-of-reader.txt" }
+
 func lexKinds() []lexKind {
 	st := statefulDef()
 	nd := nestedDef()
@@ -384,6 +389,12 @@ func runJob(w *hx.Worker, j job, maxLen int, only string) {
 					}},
 					{"Parse(bufio.Reader)", func() (*any, error) { return p.Parse(fn, bufio.NewReaderSize(strings.NewReader(in), 16), popt) }},
 					{"Parse(one byte at a time)", func() (*any, error) { return p.Parse(fn, iotest.OneByteReader(strings.NewReader(in)), popt) }},
+					{"Parse(reader that has a Name(), filename given)", func() (*any, error) {
+						if fn == "" {
+							return p.Parse(fn, strings.NewReader(in), popt) // the reader's name is the documented fallback for an empty filename
+						}
+						return p.Parse(fn, namedReader{strings.NewReader(in)}, popt)
+					}},
 					{"Parse(last bytes together with io.EOF)", func() (*any, error) { return p.Parse(fn, iotest.DataErrReader(strings.NewReader(in)), popt) }},
 					{"Parse(one byte at a time, last one with io.EOF)", func() (*any, error) {
 						return p.Parse(fn, iotest.DataErrReader(iotest.OneByteReader(strings.NewReader(in))), popt)
